@@ -124,6 +124,8 @@ type Options struct {
 const (
 	defaultMaxProofs = 1
 	defaultMaxDepth  = 64
+	// noCut is the value of explainer.cutAt when no cycle was cut.
+	noCut = int(^uint(0) >> 1)
 )
 
 // ErrNoProof indicates that no proof was found for the goal. The goal may
@@ -156,7 +158,8 @@ func Explain(program *analysis.ProgramInfo, store factstore.ReadOnlyFactStore, g
 		store:   store,
 		opts:    opts,
 		cache:   make(map[uint64][]*ProofNode),
-		onStack: make(map[uint64]bool),
+		onStack: make(map[uint64]int),
+		cutAt:   noCut,
 		ruleIDs: make(map[int]string),
 	}
 	proofs := e.explain(goal, 0)
@@ -173,8 +176,12 @@ type explainer struct {
 	// cache memoizes proofs per ground goal hash. Avoids recomputing proofs
 	// of facts that appear as premises in multiple parent proofs.
 	cache map[uint64][]*ProofNode
-	// onStack tracks goals currently being proved to break cycles.
-	onStack map[uint64]bool
+	// onStack maps each goal currently being proved to its depth on the proof
+	// stack; it is used to break cycles.
+	onStack map[uint64]int
+	// cutAt is the smallest stack depth of a goal at which a cycle was cut
+	// since the innermost running explain call started (noCut if none).
+	cutAt int
 	// ruleIDs memoizes content-addressed rule IDs keyed by index in program.Rules.
 	ruleIDs map[int]string
 }
@@ -187,11 +194,16 @@ func (e *explainer) explain(goal ast.Atom, depth int) []*ProofNode {
 	if cached, ok := e.cache[h]; ok {
 		return cached
 	}
-	if e.onStack[h] {
+	if at, ok := e.onStack[h]; ok {
+		if at < e.cutAt {
+			e.cutAt = at
+		}
 		return nil
 	}
-	e.onStack[h] = true
+	e.onStack[h] = depth
 	defer delete(e.onStack, h)
+	outerCut := e.cutAt
+	e.cutAt = noCut
 
 	var proofs []*ProofNode
 
@@ -232,7 +244,22 @@ func (e *explainer) explain(goal ast.Atom, depth int) []*ProofNode {
 		}
 	}
 
-	e.cache[h] = proofs
+	// A search that ran into a goal further up the stack has not seen the
+	// proofs that go through that goal. Finding nothing is then not final: the
+	// same goal may be provable when it is asked for outside of that cycle, so
+	// an empty result is only cached if it does not depend on the stack.
+	innerCut := e.cutAt
+	e.cutAt = outerCut
+	if innerCut < depth {
+		if innerCut < e.cutAt {
+			e.cutAt = innerCut
+		}
+		if len(proofs) > 0 {
+			e.cache[h] = proofs
+		}
+	} else {
+		e.cache[h] = proofs
+	}
 	return proofs
 }
 
